@@ -1,5 +1,6 @@
 import MalVerif.Py.Prelude
 import MalVerif.Model.Serial
+import MalVerif.Py.PyInt
 /-!
 # Prelude of the translated serialisation / deep-copy code (`translators/py2lean_agserial.py`)
 
@@ -118,11 +119,18 @@ def atomOptInt (a : PyAtom) : Except PyErr (Option Int) :=
   match a with | .int i => .ok (some i) | .none => .ok none | _ => .error .other
 /-- an `int` argument -/
 def atomInt (a : PyAtom) : Except PyErr Int := match a with | .int i => .ok i | _ => .error .other
-/-- `int(x)`: an `int` is itself, a `str` is parsed (`ValueError`), anything else is a `TypeError` -/
+/-- the error of `int(text)` on a text `String.toInt?` does not read: CPython's `int` strips white space, accepts a leading
+`+` and Unicode digits (`int(" 1")`, `int("+1")`, `int("٥")` succeed) — such a text (`pyIntLenient`, `Py/PyInt.lean`) is **not
+modelled** (`PyErr.other`); any other text is a `ValueError`, as in Python -/
+def intTextErr (t : String) : PyErr := if pyIntLenient t then .other else .valueError
+def keyIntErr : Key → PyErr
+  | .s t => intTextErr t
+  | .i _ => .valueError
+/-- `int(x)`: an `int` is itself, a `str` is parsed (`ValueError`, or not modelled: `intTextErr`), anything else is a `TypeError` -/
 def atomToInt (a : PyAtom) : Except PyErr Int :=
   match a with
   | .int i => .ok i
-  | .str t => match t.toInt? with | some i => .ok i | none => .error .valueError
+  | .str t => match t.toInt? with | some i => .ok i | none => .error (intTextErr t)
   | _ => .error .other
 /-- `str(x)` of a scalar (containers are not modelled) -/
 def atomPyStr (a : PyAtom) : Except PyErr String :=
@@ -133,7 +141,16 @@ def atomEqStr (a : PyAtom) (t : String) : Bool := match a with | .str u => u == 
 def atomKeys (a : PyAtom) : Except PyErr (List Key) :=
   match a with | .idmap d => .ok (d.map (·.1)) | _ => .error .other
 /-- `int(key)` -/
-def keyInt (k : Key) : Except PyErr Int := match k.toInt? with | some i => .ok i | none => .error .valueError
+def keyInt (k : Key) : Except PyErr Int := match k.toInt? with | some i => .ok i | none => .error (keyIntErr k)
+
+@[simp] theorem keyInt_of_toInt {k : Key} {i : Int} (h : k.toInt? = some i) : keyInt k = .ok i := by simp [keyInt, h]
+theorem keyInt_none_plain {k : Key} (h : k.toInt? = none) (hp : PyInt.keyPlain k = true) : keyInt k = .error .valueError := by
+  cases k with
+  | i n => simp [Key.toInt?] at h
+  | s t =>
+    simp only [Key.toInt?] at h
+    have hl : pyIntLenient t = false := by simpa [PyInt.keyPlain, h] using hp
+    simp [keyInt, Key.toInt?, h, keyIntErr, intTextErr, hl]
 /-- a sequence of keys handed to a `list[int]` parameter: `add_attacker` applies `int()` to each element
 (translated there as the identity on `Int`), so the conversion happens at the call -/
 def keysInts (ks : List Key) : Except PyErr (List Int) := ks.mapM keyInt
